@@ -141,7 +141,9 @@ class CoreDriver:
             n -= k
             if head[0] == 0:
                 st.pending_lines.pop(0)
-                if head[1] is not None:
+                if head[1] == "garbage":
+                    self.net.log("Garbage", s=s)
+                elif head[1] is not None:
                     self.net.log("Send", s=s, **head[1])
 
     def _fs_gate(self, s, op, segs, kt):
@@ -191,7 +193,8 @@ class CoreDriver:
             return True
         if op == "connect":
             s = st[1]
-            if s in self.sess or self.w.server.server.closed:
+            old = self.sess.get(s)
+            if (old is not None and not old.ctl.lost) or self.w.server.server.closed:
                 ok = False
             else:
                 x = self.sess[s] = Sess(s)
@@ -215,7 +218,22 @@ class CoreDriver:
             if x is None or x.ctl.transport.is_closing():
                 ok = False
             else:
-                x.pending_lines.append([len(raw), None])
+                decodable = True
+                try:
+                    raw.decode("utf-8")
+                except UnicodeDecodeError:
+                    decodable = False
+                body = raw[:-1] if raw.endswith(b"\n") else raw
+                if decodable and len(raw) < 2 ** 16 and raw.endswith(b"\n") and b"\n" not in body:
+                    fields = classify_line(raw.decode("utf-8"))
+                    x.last_verb = fields["v"]
+                    x.pending_lines.append([len(raw), fields])
+                elif raw.endswith(b"\n") or len(raw) >= 2 ** 16:
+                    x.pending_lines.append([min(len(raw), 2 ** 16 + 1) if not decodable or len(raw) < 2 ** 16 else 2 ** 16 + 1, "garbage"])
+                    if len(raw) > x.pending_lines[-1][0]:
+                        x.pending_lines.append([len(raw) - x.pending_lines[-1][0], None])
+                else:
+                    x.pending_lines.append([len(raw), None])  # an unterminated fragment: nothing happens yet
                 x.ctl.send(raw)
         elif op == "dconnect":
             s = st[1]
@@ -425,7 +443,7 @@ def translate(events, world):
             if e["v"] in ("retr", "stor", "appe", "list", "mlsd"):
                 last_verb[s] = e["v"]
             out.append({"ev": "Send", "s": s, "t": t, "v": e["v"], "a": e["a"], "x": e["x"], "n": e["n"]})
-        elif ev in ("DataSend", "DataEof", "Vanish", "ServerClose", "Tick", "CtlClose"):
+        elif ev in ("DataSend", "DataEof", "Vanish", "ServerClose", "Tick", "CtlClose", "Garbage"):
             r = {"ev": ev, "t": t}
             if ev not in ("ServerClose", "Tick"):
                 r["s"] = s
